@@ -38,7 +38,7 @@ func toColumnIndexRowid(s *sdb.Schema, columns []string) ([]columnIndex, error) 
 	for _, c := range columns {
 		n := s.Column(c)
 		if n < 0 {
-			cup := strings.ToUpper(c)
+			cup := upperASCII(c)
 			if cup == "ROWID" || cup == "OID" || cup == "_ROWID_" {
 				res = append(res, columnIndex{nil, n, true})
 				continue
@@ -81,11 +81,11 @@ func columnStoreOrder(schema *sdb.Schema) []int {
 	// all PK columns come first, then all other columns, in order
 	var cols = make([]string, 0, len(schema.Columns))
 	for _, c := range schema.PK {
-		cols = append(cols, strings.ToLower(c.Column))
+		cols = append(cols, lowerASCII(c.Column))
 	}
 loop:
 	for _, c := range schema.Columns {
-		n := strings.ToLower(c.Column)
+		n := lowerASCII(c.Column)
 		for _, oc := range cols {
 			if oc == n {
 				continue loop
@@ -97,7 +97,7 @@ loop:
 	res := make([]int, len(schema.Columns)) // cols can be shorter on duplicate column names
 loop2:
 	for i, c := range schema.Columns {
-		n := strings.ToLower(c.Column)
+		n := lowerASCII(c.Column)
 		for j, oc := range cols {
 			if oc == n {
 				res[i] = j
@@ -121,7 +121,7 @@ func pkColumns(schema *sdb.Schema, ind *sdb.SchemaIndex) []int {
 		// also has the same collation, otherwise the column is added again.
 		in := -1
 		for i, ic := range ind.Columns {
-			if strings.EqualFold(ic.Column, c.Column) && sameCollate(ic.Collate, c.Collate) {
+			if lowerASCII(ic.Column) == lowerASCII(c.Column) && sameCollate(ic.Collate, c.Collate) {
 				in = i
 				break
 			}
@@ -144,4 +144,25 @@ func sameCollate(a, b string) bool {
 		b = sdb.DefaultCollate
 	}
 	return strings.EqualFold(a, b)
+}
+
+// identifiers are case insensitive for ASCII letters only (as in SQLite)
+func lowerASCII(s string) string {
+	b := []byte(s)
+	for i, c := range b {
+		if c >= 'A' && c <= 'Z' {
+			b[i] = c - 'A' + 'a'
+		}
+	}
+	return string(b)
+}
+
+func upperASCII(s string) string {
+	b := []byte(s)
+	for i, c := range b {
+		if c >= 'a' && c <= 'z' {
+			b[i] = c - 'a' + 'A'
+		}
+	}
+	return string(b)
 }
